@@ -43,10 +43,15 @@ def make(ti_renderable, hooks):
         R.Renderable, R.FrameCount, R.FrameDuration, R.Seek, R.Frame)
 
     class SimRenderable(Renderable):
-        def __init__(self, frame_count, frame_duration, size, stream_len=0):
-            super().__init__(frame_count, frame_duration)
+        def __init__(self, frame_count, frame_duration, size, stream_len=0, postponed=False):
+            # postponed: the frame count is only worked out when somebody first asks for it
+            self._postponed_count = frame_count
+            super().__init__(FrameCount.POSTPONED if postponed else frame_count, frame_duration)
             self._size_ = size
             self.stream_len = stream_len
+
+        def _get_frame_count_(self):
+            return self._postponed_count
 
         def _get_render_size_(self):
             return self._size_
